@@ -26,7 +26,7 @@ fn finite_or_error(r: RuntimeResult<TailedEvalResult<P, P, P>>) -> Option<f64> {
     out
 }
 macro_rules! float_binop_harness {
-    ($name:ident, $add:ident, $bsel:expr, |$a:ident, $b:ident| $exact:expr) => {
+    ($name:ident, $add:ident, $bsel:expr, $isdiv:expr, |$a:ident, $b:ident| $exact:expr) => {
         native_harness! {
         #[kani::unwind(4)]
         fn $name() {
@@ -40,7 +40,8 @@ macro_rules! float_binop_harness {
             kani::assume($a.is_finite() && $b.is_finite()); // float values of the language are finite (the property itself)
             let args = vec![val(XValue::Float($a), &rt), val(XValue::Float($b), &rt)];
             let r = nc(&args, &ns, false, rt.clone());
-            let exact: f64 = $exact;
+            // (the oracle must not itself divide 0.0 by 0.0: Kani's NaN-on-division check would flag the harness)
+            let exact: f64 = if $isdiv && $b == 0.0 { f64::NAN } else { $exact };
             match finite_or_error(r) {
                 Some(f) => assert!(f.to_bits() == exact.to_bits() || (f == 0.0 && exact == 0.0), "result is the IEEE result"),
                 None => assert!(!exact.is_finite() || $b == 0.0, "an error value only when the IEEE result is not finite (or the divisor is zero)"),
@@ -65,14 +66,14 @@ fn const_operand() -> f64 {
         _ => 0.0,
     }
 }
-float_binop_harness!(c13_float_add, add_float_add, const_operand(), |a, b| a + b);
-float_binop_harness!(c13_float_sub, add_float_sub, const_operand(), |a, b| a - b);
-float_binop_harness!(c13_float_mul, add_float_mul, const_operand(), |a, b| a * b);
-float_binop_harness!(c13_float_div, add_float_div, const_operand(), |a, b| a / b);
-float_binop_harness!(c13_float_add_full_t, add_float_add, kani::any(), |a, b| a + b);
-float_binop_harness!(c13_float_sub_full_t, add_float_sub, kani::any(), |a, b| a - b);
-float_binop_harness!(c13_float_mul_full_t, add_float_mul, kani::any(), |a, b| a * b);
-float_binop_harness!(c13_float_div_full_t, add_float_div, kani::any(), |a, b| a / b);
+float_binop_harness!(c13_float_add, add_float_add, const_operand(), false, |a, b| a + b);
+float_binop_harness!(c13_float_sub, add_float_sub, const_operand(), false, |a, b| a - b);
+float_binop_harness!(c13_float_mul, add_float_mul, const_operand(), false, |a, b| a * b);
+float_binop_harness!(c13_float_div, add_float_div, const_operand(), true, |a, b| a / b);
+float_binop_harness!(c13_float_add_full_t, add_float_add, kani::any(), false, |a, b| a + b);
+float_binop_harness!(c13_float_sub_full_t, add_float_sub, kani::any(), false, |a, b| a - b);
+float_binop_harness!(c13_float_mul_full_t, add_float_mul, kani::any(), false, |a, b| a * b);
+float_binop_harness!(c13_float_div_full_t, add_float_div, kani::any(), true, |a, b| a / b);
 
 native_harness! {
 #[kani::unwind(4)]
@@ -97,3 +98,42 @@ fn c13_float_neg() {
 }
 }
 
+
+/// float `mod` (floored, computed as ((a % b) + b) % b): a finite float or an error value for every finite a and
+/// divisors from a constant table that includes the top of the float range (where the intermediate sum overflows)
+fn mod_divisor() -> f64 {
+    match kani::any::<u8>() % 5 {
+        0 => 1.5e308,
+        1 => -1.5e308,
+        2 => f64::MAX,
+        3 => 2.0,
+        _ => 0.0,
+    }
+}
+native_harness! {
+#[kani::unwind(4)]
+fn c13_float_mod_t() {
+    let mut root = RootCompilationScope::<P, P, P>::new();
+    add_float_mod(&mut root).unwrap();
+    let nc = last_native(&root);
+    let rt: Rt = no_limits();
+    let ns = crate::runtime_scope::verif_kani::bare_scope();
+    let a: f64 = kani::any();
+    let b: f64 = mod_divisor();
+    kani::assume(a.is_finite());
+    let args = vec![val(XValue::Float(a), &rt), val(XValue::Float(b), &rt)];
+    let r = nc(&args, &ns, false, rt.clone());
+    // only finiteness is asserted (inside finite_or_error): CBMC's model of the float remainder is not exact enough to
+    // state its value (a first version asserting sign and magnitude produced counterexamples that do not reproduce natively)
+    match finite_or_error(r) {
+        Some(_) => assert!(b != 0.0, "a zero divisor is an error value"),
+        None => {}
+    }
+    kani::cover!(b == 1.5e308 && a > 1.0e308, "operands at the top of the float range");
+    kani::cover!(b == 2.0 && a < 0.0, "negative dividend");
+    std::mem::forget(args);
+    std::mem::forget(ns);
+    std::mem::forget(root);
+    std::mem::forget(rt);
+}
+}
